@@ -832,8 +832,8 @@ fn schnorr_n<const N: usize>(rng: &mut StdRng, thorough: bool, out: &mut Vec<Val
                                         "atoms": {"sigma1_not_identity": a, "schnorr": b_, "pairing": c_}}));
                     }
                     // two errors that would cancel in a FOLDED check: the signature is on m + d*e_0, the commitment on m and
-                    // the response of slot 0 is moved by c*d - the Schnorr relation and the pairing relation are each false
-                    {
+                    // the response of slot 0 is moved by c*d or by d - the Schnorr relation and the pairing relation are each false
+                    for scaled in [true, false] {
                         let d = Scalar::from(3u64);
                         let mut m2 = mv;
                         m2[0] += d;
@@ -844,7 +844,9 @@ fn schnorr_n<const N: usize>(rng: &mut StdRng, thorough: bool, out: &mut Vec<Val
                         let tq = Tree::of(&q);
                         let mut bq = tq.bytes.clone();
                         let zl = tq.get("commitment_proof.message_response_scalars.0").unwrap().clone();
-                        let z0 = indep::sc(&bq[zl.off..zl.off + 32]).unwrap() + ch.to_scalar() * d;
+                        // scaled: the response of the signed message (Schnorr error c*d*Y~_0); unscaled: Schnorr error d*Y~_0,
+                        // exactly the difference between the commitment and the signed message
+                        let z0 = indep::sc(&bq[zl.off..zl.off + 32]).unwrap() + if scaled { ch.to_scalar() * d } else { d };
                         bq[zl.off..zl.off + 32].copy_from_slice(&z0.to_bytes());
                         let q2: zkchannels_crypto::proofs::SignatureProof<N> = bincode::deserialize(&bq).unwrap();
                         let v2 = sp_root(&Tree { bytes: bq, leaves: tq.leaves.clone() }).unwrap();
@@ -1040,6 +1042,12 @@ fn published_sig(t: &Tree, i: usize) -> Signature {
 
 /// assemble a range constraint from arbitrary (claimed digit, signature) pairs linked to a host proof
 fn assemble_range(rp: &RangeConstraintParameters, rpkv: &Pk, rpk: &PublicKey<1>, claims: &[Scalar; 9], sigs: &[Signature; 9], link: bool, rng: &mut StdRng) -> Value {
+    assemble_range2(rp, rpkv, rpk, claims, sigs, link, rng, None)
+}
+
+/// `overwrite`: 96 bytes written over the blinded signature of EVERY digit proof (e.g. a small-order sigma1 with
+/// sigma2 = identity: no published signature is needed at all if such an element is accepted)
+fn assemble_range2(rp: &RangeConstraintParameters, rpkv: &Pk, rpk: &PublicKey<1>, claims: &[Scalar; 9], sigs: &[Signature; 9], link: bool, rng: &mut StdRng, overwrite: Option<&[u8]>) -> Value {
     let hostp = PedersenParameters::<G1Projective, 1>::new(rng);
     let mut builders = vec![];
     let mut total_cs = Scalar::zero();
@@ -1063,7 +1071,11 @@ fn assemble_range(rp: &RangeConstraintParameters, rpkv: &Pk, rpk: &PublicKey<1>,
     let mut pow = Scalar::one();
     for b in builders {
         let p = b.generate_proof_response(ch);
-        let t = Tree::of(&p);
+        let mut t = Tree::of(&p);
+        if let Some(o) = overwrite {
+            let (lo, hi) = t.span("blinded_signature").unwrap();
+            t.bytes[lo..hi].copy_from_slice(o);
+        }
         let v = sp_root(&t).unwrap();
         let (a, b_, c_) = v.relations(rpkv, &ch.to_scalar());
         digits_ok = digits_ok && a && b_ && c_;
@@ -1180,6 +1192,19 @@ pub fn range(seed: u64, thorough: bool) -> Vec<Value> {
         ev["well_formed"] = json!(honest);
         out.push(ev);
     }
+    {
+        // value 2^63 = 128 * 128^8 with NO digit signature: sigma1 = the order-3 curve point outside G1, sigma2 = identity
+        let mut o = vec![0u8; 96];
+        o[0] = 0x80;
+        o[48] = 0xc0;
+        let (mut c, s_) = all(0);
+        c[8] = sc(128);
+        let mut ev = assemble_range2(&rp, &rpkv, &rpk, &c, &s_, true, &mut rng, Some(&o));
+        ev["ev"] = json!("rangeattack");
+        ev["case"] = json!("value 2^63, every digit proof around a small-order sigma1 outside G1");
+        ev["well_formed"] = json!(false);
+        out.push(ev);
+    }
     out.push(json!({"ev": "rangeparams", "case": "published sigma1 all distinct", "expect_ok": true, "validate_ok": sigma1_distinct, "all_signatures_valid_independently": sigma1_distinct}));
     // ---- parameter validation: accepts exactly the sets whose i-th signature verifies on digit i
     let akp = KeyPair::<1>::new(&mut rng);
@@ -1192,6 +1217,35 @@ pub fn range(seed: u64, thorough: bool) -> Vec<Value> {
         subs.push((format!("signature {} replaced by the other parameter set's", i), i, published_sig(&Tree::of(&other_rp), i), false));
     }
     if thorough { for i in 2..127usize { subs.push((format!("signature {} replaced by signature {}", i, i + 1), i, sig(i + 1), false)); } }
+    // two signatures made invalid by opposite errors: sigma2_a + D, sigma2_b - D (an unweighted batch check over
+    // signatures with a common... any base would have to weigh them; each is invalid on its own)
+    let mut pair_subs: Vec<(String, Vec<(usize, Signature)>)> = vec![];
+    for (a, b) in [(5usize, 127usize), (0, 1)] {
+        let d = G1Projective::generator() * Scalar::from(11u64);
+        let mk = |s: Signature, plus: bool| -> Signature {
+            let s2 = if plus { G1Projective::from(s.sigma2()) + d } else { G1Projective::from(s.sigma2()) - d };
+            let mut bb = s.sigma1().to_compressed().to_vec();
+            bb.extend_from_slice(&G1Affine::from(s2).to_compressed());
+            bincode::deserialize(&bb).unwrap()
+        };
+        pair_subs.push((format!("signatures {} and {} shifted by +D and -D", a, b), vec![(a, mk(sig(a), true)), (b, mk(sig(b), false))]));
+    }
+    for (name, reps) in pair_subs {
+        let mut b = rt.bytes.clone();
+        for (i, s_) in &reps {
+            let (lo, hi) = rt.span(&format!("digit_signatures.{}", i)).unwrap();
+            b[lo..hi].copy_from_slice(&bincode::serialize(s_).unwrap());
+        }
+        let p2: RangeConstraintParameters = bincode::deserialize(&b).unwrap();
+        let t2 = Tree::of(&p2);
+        let mut all_ok = true;
+        for k in 0..128usize {
+            let sk = published_sig(&t2, k);
+            let (wf, pe) = indep::ps_relation(&rpkv, &[sc(k as u64)], &sk.sigma1(), &sk.sigma2());
+            all_ok = all_ok && wf && pe;
+        }
+        out.push(json!({"ev": "rangeparams", "case": name, "expect_ok": false, "validate_ok": p2.validate().is_ok(), "all_signatures_valid_independently": all_ok}));
+    }
     for (name, i, s_, expect) in subs {
         let mut b = rt.bytes.clone();
         let (lo, hi) = rt.span(&format!("digit_signatures.{}", i)).unwrap();
